@@ -104,6 +104,11 @@ FAULTS = {
     "var:amp-variable-unknown-channel": ("add_v", "x", 52, "zz"),
     "var:foreign-in-pulse": ("add_v", "foreign:x", 52, "g"),
     "magfield:in-ising": ("magfield", 1.0, 0.0, 0.0),
+    # refusals caused by the MODE of the channel / sequence, on calls that carry a variable (the plain versions are core ops)
+    "mode:variable-pulse-on-eom-channel": ("add_v", "x", 52, "g"),
+    "mode:variable-eom-pulse-outside-eom": ("eom_pulse_v", "x", "g"),
+    "mode:variable-enable-eom-twice": ("enable_eom_v", "x", "g"),
+    "mode:variable-modify-outside-eom": ("modify_eom_v", "x", "g"),
 }
 
 RO = {
